@@ -9,6 +9,29 @@ def monitor(d, r):
     return ('c01', d.enc_cfg() + [len(d.models)] + ms + common.enc_items(r.items))
 
 
+def monitor_without_may(d, r):
+    """may_ has no side effects: with the may_ segments cut out, the rest must be a documented-order trace"""
+    items, skip = [], None
+    for it in r.items:
+        if skip is not None:
+            if it[0] in ('ret', 'raised') and it[1] == skip:
+                skip = None
+            continue
+        if it[0] == 'api' and it[1] == flat.MAY:
+            skip = it[2]
+            continue
+        items.append(it)
+    ms = []
+    for m in d.models:
+        ms += [m, d.initial]
+    return ('c04', d.enc_cfg() + [len(d.models)] + ms + common.enc_items(items))
+
+
+def async_oracle(d, r):
+    from .. import asynctwin
+    return [(w, det, 'C01.' + w) for w, det in asynctwin.twin_failures(d, flatcheck.fingerprint(d), qmode=0)]
+
+
 def nontrivial(d, r):
     rets = [i for i in r.items if i[0] in ('ret', 'raised')]
     executed = sum(1 for i in rets if i[0] == 'ret' and i[2] == 1)
@@ -19,7 +42,7 @@ class C01(flatcheck.FlatCheck):
     prop = 'C01'
     manifest = dict(
         level='proof', design='DESIGN.md 4/C01',
-        text="Lean 4 theorems C01_step / C01_history: every trace of the flat engine model, for all configurations, histories and condition valuations, is accepted by the documented-order acceptor; the model is tied to /repo by trace equality on generated cases and the same compiled acceptor judges the implementation's traces.",
+        text="Lean 4 theorems C01_step / C01_history: every trace of the flat engine model, for all configurations, histories and condition valuations, is accepted by the documented-order acceptor; the model is tied to /repo by trace equality on generated cases and the same compiled acceptor judges the implementation's traces (also with may_ calls interleaved, which must leave no trace); the asyncio class is compared stage by stage with the synchronous one on the same descriptions (plain / coroutine / suspending callbacks).",
         note="Trusted: Lean kernel (+propext, Quot.sound), hand-written model Model/Core.lean, acceptor Model/Spec/C01.lean, harness recorders; theorem hypotheses NoRaise/NoCmds/WF (raising callbacks and re-entrancy are C04/C05).",
         technique="Lean 4 proof (induction over histories) + differential correspondence + verified trace monitor")
     level = 'proof'
@@ -32,6 +55,15 @@ class C01(flatcheck.FlatCheck):
         flatcheck.Stream('malformed', lambda: flat.Knobs(max_models=2, p_unknown_event=0.2, p_bad_dest=0.1,
                                                          p_raise=0.05, p_on_exception=0.3, max_history=8),
                          nontrivial=nontrivial, quick=(16, 60), thorough=(32, 600)),
+    )
+    streams = streams + (
+        # may_ calls interleaved: they must leave no trace in what later triggers do (e.g. no phantom source entries)
+        flatcheck.Stream('with-may', lambda: flat.Knobs(max_models=2, p_unknown_event=0.0, max_history=10,
+                                                        hist_kinds=(flat.TRIGGER, flat.TRIGGER, flat.MAY)),
+                         monitor=monitor_without_may, nontrivial=nontrivial, quick=(16, 120), thorough=(32, 800)),
+        # the asyncio class: same documented order (stage by stage) as the synchronous one
+        flatcheck.Stream('async-order', lambda: flat.Knobs(max_models=2, p_unknown_event=0.0, max_history=6, p_share_cb=0.0),
+                         oracle=async_oracle, nontrivial=nontrivial, quick=(16, 40), thorough=(32, 300)),
     )
     rule = ('random flat configurations (1-5 states, 1-3 events, <=3 candidates per source, <=3 conditions/unless, '
             'callbacks in every slot, ignore flags on machine and states, send_event on/off, internal/reflexive '
